@@ -26,7 +26,9 @@ Commands == <<
   C("annotate", <<"{file:table1}">>, "phix", <<Pos(1, "{file:table2}"), In("part"), Fmt>>),
   C("clear", <<>>, "phix", <<In("part"), Fmt>>),
   C("complement", <<>>, "phix", <<In("part"), Fmt>>),
-  C("define", <<"misc_feature", "10..20">>, "phix", <<Pos(1, "gene"), Pos(2, "30..40"), Val("-q", "note=x"), Val2("-q", "note=x", "note=y"), In("part"), Fmt>>),
+  C("define", <<"misc_feature", "10..20">>, "phix", <<Pos(1, "gene"), Pos(2, "30..40"), Val("-q", "note=x"), Val2("-q", "note=x", "note=y"),
+       \* option values are byte strings: {byte:XX} is replaced by that raw byte (not valid UTF-8)
+       Val2("-q", "note=a{byte:ff}b", "note=a{byte:fe}b"), In("part"), Fmt>>),
   C("delete", <<"CDS">>, "phix", <<Flag("-e"), Pos(1, "gene"), In("part"), Fmt>>),
   C("extract", <<"CDS">>, "phix", <<Flag("-v"), Pos(1, "gene"), In("part"), Fmt, Val2("-F", "fasta", "genbank")>>),
   C("extract", <<"1..10", "21..40">>, "phix", <<Perm, Pos(2, "31..50")>>),
